@@ -370,7 +370,7 @@ func init() {
 			if err == nil {
 				for _, p := range params {
 					_, _ = p.GetData(nil)
-					_, _ = p.Encode()
+					_ = p.Copy()
 				}
 				b.SetParameters(params)
 			}
